@@ -119,6 +119,12 @@ def entry_points(root):
     add('PurePath.full_match', mk(lambda p, fl, k: WP.PurePosixPath('zz').full_match(p, flags=fl, **k), G.NEGATE, BR))
     add('Path.glob', mk(lambda p, fl, k: list(WP.Path(root).glob(p, flags=fl, **k)), G.NEGATE, BR))
     add('Path.rglob', mk(lambda p, fl, k: list(WP.Path(root).rglob(p, flags=fl, **k)), G.NEGATE, BR))
+    # the same walkers with flags that change how patterns are de-duplicated / delivered, not how many there are
+    add('glob.glob(NOUNIQUE)', mk(lambda p, fl, k: G.glob(p, flags=fl | G.NOUNIQUE, root_dir=root, **k), G.NEGATE, BR))
+    add('glob.iglob(NOUNIQUE|NODIR)', mk(lambda p, fl, k: list(G.iglob(p, flags=fl | G.NOUNIQUE | G.NODIR, root_dir=root, **k)), G.NEGATE, BR))
+    add('Path.glob(NOUNIQUE)', mk(lambda p, fl, k: list(WP.Path(root).glob(p, flags=fl | G.NOUNIQUE, **k)), G.NEGATE, BR))
+    add('glob.glob(SCANDOTDIR|MATCHBASE)', mk(lambda p, fl, k: G.glob(p, flags=fl | G.SCANDOTDIR | G.MATCHBASE, root_dir=root, **k), G.NEGATE, BR))
+    add('glob.globfilter(REALPATH|NODIR)', mk(lambda p, fl, k: G.globfilter(['zz'], p, flags=fl | G.REALPATH | G.NODIR, root_dir=root, **k), G.NEGATE, BR))
 
     def wm(pats, excl, inline, limit):
         # WcMatch takes one `|`-separated string; exclusions are inline `!` pieces (NEGATE and SPLIT are always on)
